@@ -342,3 +342,18 @@ package sm2
 //@   (uses "big" "big:axioms")
 //@   (requires init (and (sm2init) (consts)))
 //@   (requires keys (and (wfpriv priB) (wfpub pubA) (wfpriv rpri) (wfpub rpubA))))
+
+// ---- decoders and encoders of points, signatures and ciphertexts (utils.go, sm2.go) --------------------------------------
+//@ (func getLastBit
+//@   (requires nn (not (isnil a)))
+//@   (ensures bit (bvule result 1)))
+// Decompress: nil or a public key for every byte string.
+//@ (func Decompress
+//@   (uses "big" "big:axioms")
+//@   (ensures any (or (isnil result) (wfpub result))))
+// Compress: 33 bytes for a key whose X is below 2^256.
+//@ (func Compress
+//@   (uses "big" "big:axioms")
+//@   (requires key (wfpub a))
+//@   (requires range (and (<= 0 (bigval (field a X))) (< (bigval (field a X)) 115792089237316195423570985008687907853269984665640564039457584007913129639936)))
+//@   (ensures len (= (len result) 33)))
